@@ -1648,6 +1648,11 @@ pub fn run(a: &Args) {
                 crate::c03m7::run_steps(&mut out, &mut pend, &ctx, n, label, &steps).await;
             }
         }
+        // the end-to-end node (frames → parser → entry point → shards → encoder): every template once
+        for n in [2usize, 4] {
+            let steps = crate::c03srv::corpus(&ctx, n);
+            crate::c03srv::run_steps(&mut out, &mut pend, &ctx, n, "corpus", &steps).await;
+        }
         for n in [4usize] {
             for (label, steps) in crate::c03m7::after_deadline(&ctx, n) {
                 crate::c03m7::run_steps(&mut out, &mut pend, &ctx, n, &label, &steps).await;
@@ -1684,6 +1689,11 @@ pub fn run(a: &Args) {
                 random_case(&ctx, &mut r)
             };
             run_case(&mut out, &mut pend, &ctx, &c).await;
+            if r.chance(1, 6) {
+                let n = *r.pick(&[2usize, 3, 4, 8, 16]);
+                let steps = crate::c03srv::random_steps(&ctx, &mut r, n);
+                crate::c03srv::run_steps(&mut out, &mut pend, &ctx, n, "", &steps).await;
+            }
             if r.chance(1, 5) {
                 let n = *r.pick(&[2usize, 3, 4, 8, 16]);
                 let steps = crate::c03m7::random_steps(&ctx, &mut r, n);
